@@ -8,6 +8,7 @@ from typing import List, Iterator, Optional, Dict, Tuple
 import numpy as np
 from tqdm import tqdm
 from qce_circuit.utilities.custom_exceptions import InterfaceMethodException
+from qce_circuit.utilities.custom_warnings import OperationNotFoundWarning
 from qce_circuit.utilities.array_manipulation import unique_in_order
 from qce_circuit.structure.intrf_circuit_operation import (
     ICircuitNode,
@@ -294,11 +295,21 @@ class CircuitCompositeOperation(ICircuitCompositeOperation):
         if relation_transfer_lookup is None:
             relation_transfer_lookup = {}
 
-        # Iterate through nodes and rebuild circuit composite
-        for node in self._circuit_graph.get_node_iterator():
-            operation_copy = node.operation.copy(relation_transfer_lookup=relation_transfer_lookup)
-            # Keep track of copied operations for relation transfer
-            relation_transfer_lookup[node.operation] = operation_copy
+        # Iterate through nodes and copy operations
+        operations: List[ICircuitOperation] = [node.operation for node in self._circuit_graph.get_node_iterator()]
+        operation_copies: List[ICircuitOperation] = []
+        with warnings.catch_warnings():
+            # Group relations can reference operations that are copied later, these are transferred below
+            warnings.simplefilter("ignore", OperationNotFoundWarning)
+            for operation in operations:
+                operation_copy = operation.copy(relation_transfer_lookup=relation_transfer_lookup)
+                # Keep track of copied operations for relation transfer
+                relation_transfer_lookup[operation] = operation_copy
+                operation_copies.append(operation_copy)
+        # Rebuild circuit composite
+        for operation, operation_copy in zip(operations, operation_copies):
+            if isinstance(operation.relation_link, MultiRelationLink):
+                operation_copy.relation_link = operation.relation_link.copy(relation_transfer_lookup=relation_transfer_lookup)
             result.add(operation_copy)
 
         return result
